@@ -102,6 +102,19 @@ Theorem C40_shared_state_audited :
 Proof. exact shared_state_audited. Qed.
 Print Assumptions C40_shared_state_audited.
 
+(* Address-escaping package variables (model.zero, pdfcpu.zero, the colours): the set of them, the places their
+   addresses flow to, and EVERY explicit write through a dereference that could reach them (`*x.Offset = ..`,
+   `*e.Generation++`, `*offset += ..`) are exactly the audited ones of Audit.v, each audited site carrying
+   the reason why its pointee is never one of these variables.  A new write through such a pointer (e.g.
+   `*head.Offset = objNr` in handleDanglingFree) is not in the audited list.  Approximation: syntactic,
+   explicit dereferences only; the harness's sentinel oracle (shared-sentinel-modified:<var>) covers the rest. *)
+Theorem C40_escaping_pointees_audited :
+  (forall v, In v addr_escaping <-> In v audited_escaping) /\
+  (forall f, In f addr_flows <-> In f audited_addr_flows) /\
+  (forall w, In w deref_writes <-> In w audited_deref_writes).
+Proof. exact escaping_pointees_audited. Qed.
+Print Assumptions C40_escaping_pointees_audited.
+
 (* model.ConfigPath: writes are guarded (partial) but the discipline as a whole is refuted by
    the unguarded read in model.NewDefaultConfiguration. *)
 Theorem C40_configpath_writes_guarded_partial :
